@@ -12,6 +12,7 @@ package binpatch
 //@   property C12
 //@   ensures @empty_patch_set ret0 != nil && len(ret0.Patches) == 0 && len(ret0.Blobs) == 0
 //@   fresh ret0
+//@   modifies nothing
 //@
 //@ func (*PatchSet).Add
 //@   property C12
